@@ -1,7 +1,7 @@
-(* C19 proofs, part 4: the Filer's refill loops, exactness of a page, pagination,
-   the refutations of the full statement. *)
+(* C19 proofs, part 4: the Filer's refill loops (termination and exactness of a page),
+   pagination. *)
 From Coq Require Import List NArith Bool String Ascii Arith Lia.
-From SW Require Import model.Listing proof.ListingBase proof.ListingStore proof.ListingPattern.
+From SW Require Import model.Listing proof.ListingBase proof.ListingStore proof.ListingScan proof.ListingPattern.
 Import ListNotations.
 Local Open Scope string_scope.
 Local Open Scope list_scope.
@@ -25,90 +25,103 @@ Proof. intros. symmetry. apply firstn_add. Qed.
 Lemma wf_incl_firstn_cand : forall start incl p d m e, In e (firstn m (cand start incl p d)) -> In e d.
 Proof. intros. eapply cand_in. eapply firstn_in. eauto. Qed.
 
-(* ================= one store call seen from the Filer ================= *)
-Lemma do_list_spec : forall s d start incl L p r,
-  wf d -> do_list s d start incl L p = Some r -> r_flag r = false ->
-  let c := cand start incl p d in
-  r_names r = map ename (filter elive (firstn L c)) /\
-  r_count r = length (filter eexp (firstn L c)) /\
-  r_dir r = del_expired (firstn L c) d /\
-  (r_last r <> "" -> cand (r_last r) false p (r_dir r) = skipn L c) /\
-  (r_last r = "" -> firstn L c = []) /\
-  r_restart r = false.
+Lemma firstn_nil_skipn : forall {A} n (l : list A), firstn n l = [] -> skipn n l = l.
+Proof. intros A n l H. rewrite <- (firstn_skipn n l) at 2. rewrite H. reflexivity. Qed.
+
+Lemma keep_last_ne : forall a b, a <> "" -> keep_last a b <> "".
+Proof. intros a b Ha. unfold keep_last. destruct (String.eqb_spec b ""); auto. Qed.
+
+Lemma skipn_shorter : forall {A} n (l : list A), firstn n l <> [] -> length (skipn n l) < length l.
 Proof.
-  intros s d start incl L p r Hwf H Hfl. unfold do_list in H.
-  destruct (wrapper_list s d start incl L p) as [w|] eqn:Ew; [|discriminate].
-  inversion H; subst r; clear H. cbn [r_flag] in Hfl. cbn [r_names r_count r_dir r_last r_restart].
-  destruct (wrapper_list_spec s d start incl L p w Hwf Ew Hfl) as [H1 [H2 H3]].
-  rewrite H1 in *. repeat split; auto.
+  intros A n l H. rewrite skipn_length. destruct n; [exfalso; apply H; reflexivity|].
+  destruct l; [exfalso; apply H; reflexivity|]. simpl. lia.
 Qed.
 
-(* ================= doListValidEntries ================= *)
-(* after consuming the first m candidates *)
-Definition vinv (d0 : dirst) (c : list entry) (p : string) (L0 : nat) (r : lres) (m : nat) : Prop :=
-  r_names r = map ename (filter elive (firstn m c)) /\
+(* ================= the invariant of both refill loops ================= *)
+(* [f] selects the entries the level passes on (live entries; live entries that match);
+   the first m candidates have been consumed *)
+Definition linv (f : entry -> bool) (d0 : dirst) (c : list entry) (p : string) (L0 : nat) (r : lres) (m : nat) : Prop :=
+  r_names r = map ename (filter f (firstn m c)) /\
   r_dir r = del_expired (firstn m c) d0 /\
   (0 < r_count r -> r_last r <> "") /\
   (r_last r <> "" -> cand (r_last r) false p (r_dir r) = skipn m c) /\
-  firstn L0 (filter elive c) = filter elive (firstn m c) ++ firstn (r_count r) (filter elive (skipn m c)).
+  (r_last r = "" -> firstn m c = []) /\
+  r_count r <= length (firstn m c) /\
+  firstn L0 (filter f c) = filter f (firstn m c) ++ firstn (r_count r) (filter f (skipn m c)).
 
-Lemma valid_loop_flag_mono : forall fuel s p r r',
-  valid_loop fuel s p r = Some r' -> r_flag r = true -> r_flag r' = true.
+(* one refill round: the sub-listing started at lastFileName (exclusive) with limit = the
+   number of entries still owed *)
+Lemma linv_step : forall f d0 c p L0 r m k r1 m1,
+  linv f d0 c p L0 r m -> r_count r = S k ->
+  linv f (r_dir r) (cand (r_last r) false p (r_dir r)) p (S k) r1 m1 ->
+  linv f d0 c p L0
+    {| r_count := r_count r1; r_last := keep_last (r_last r) (r_last r1);
+       r_names := r_names r ++ r_names r1; r_dir := r_dir r1 |} (m + m1).
 Proof.
-  induction fuel as [|f IH]; intros s p r r' H Hf; cbn [valid_loop] in H.
-  - destruct (r_count r); [congruence|discriminate].
-  - destruct (r_count r) eqn:Ec; [congruence|].
-    destruct (do_list s (r_dir r) (r_last r) false (S n) p) as [r1|]; [|discriminate].
-    eapply IH; eauto. cbn [r_flag]. rewrite Hf. reflexivity.
+  intros f d0 c p L0 r m k r1 m1 [I1 [I2 [I3 [I4 [I6 [I7 I5]]]]]] Ec [P1 [P2 [P3 [P4 [P6 [P7 P5]]]]]].
+  assert (Hl : r_last r <> "") by (apply I3; lia).
+  rewrite (I4 Hl) in *.
+  unfold linv. cbn [r_names r_dir r_count r_last].
+  split; [|split; [|split; [|split; [|split; [|split]]]]].
+  - rewrite I1, P1, <- map_app, <- filter_app, firstn_app_firstn. reflexivity.
+  - rewrite P2, I2, del_expired_app, firstn_app_firstn. reflexivity.
+  - intros _. apply keep_last_ne. exact Hl.
+  - intros _. unfold keep_last. destruct (String.eqb_spec (r_last r1) "") as [E|E].
+    + specialize (P6 E). rewrite P2, P6, del_expired_nil. rewrite (I4 Hl).
+      rewrite skipn_add. symmetry. apply firstn_nil_skipn. exact P6.
+    + rewrite (P4 E). rewrite skipn_add. reflexivity.
+  - intros E. exfalso. apply (keep_last_ne (r_last r) (r_last r1) Hl). exact E.
+  - rewrite firstn_add, app_length. lia.
+  - rewrite I5, Ec, P5. rewrite app_assoc, <- filter_app, firstn_app_firstn, <- skipn_add. reflexivity.
 Qed.
 
-Lemma valid_loop_spec : forall fuel s p d0 c L0 r m r',
-  wf d0 -> (forall e, In e c -> In e d0) ->
-  vinv d0 c p L0 r m -> valid_loop fuel s p r = Some r' -> r_flag r' = false ->
-  exists m', vinv d0 c p L0 r' m' /\ r_count r' = 0.
+(* ================= one store call seen from the Filer ================= *)
+Lemma do_list_linv : forall s d start incl L p, wf d ->
+  exists r, do_list s d start incl L p = Some r /\ linv elive d (cand start incl p d) p L r L.
 Proof.
-  induction fuel as [|f IH]; intros s p d0 c L0 r m r' Hwf Hc Hinv H Hfl; cbn [valid_loop] in H.
-  - destruct (r_count r) eqn:Ec; [|discriminate]. inversion H; subst r'. exists m. auto.
-  - destruct (r_count r) as [|k] eqn:Ec; [inversion H; subst r'; exists m; auto|].
-    destruct (do_list s (r_dir r) (r_last r) false (S k) p) as [r1|] eqn:E1; [|discriminate].
-    destruct Hinv as [I1 [I2 [I3 [I4 I5]]]].
+  intros s d start incl L p Hwf. unfold do_list.
+  destruct (wrapper_list_spec s d start incl L p Hwf) as [w [Ew [H1 [H2 H3]]]].
+  rewrite Ew. eexists. split; [reflexivity|].
+  unfold linv. cbn [r_names r_count r_dir r_last]. rewrite H1 in *.
+  split; [reflexivity|]. split; [reflexivity|]. split; [|split; [exact H2|split; [exact H3|split]]].
+  - intros Hpos Hl. rewrite (H3 Hl) in Hpos. simpl in Hpos. lia.
+  - apply length_filter_le.
+  - rewrite (firstn_filter_refill elive _ L). do 2 f_equal. f_equal.
+    apply filter_ext_in_eq. intros e _. symmetry. apply eexp_negb_elive.
+Qed.
+
+(* ================= doListValidEntries ================= *)
+Lemma valid_loop_spec : forall fuel s p d0 c L0 r m,
+  wf d0 -> linv elive d0 c p L0 r m -> (0 < r_count r -> length (skipn m c) < fuel) ->
+  exists r' m', valid_loop fuel s p r = Some r' /\ linv elive d0 c p L0 r' m' /\ r_count r' = 0.
+Proof.
+  induction fuel as [|f IH]; intros s p d0 c L0 r m Hwf Hinv Hfuel; cbn [valid_loop].
+  - destruct (r_count r) eqn:Ec; [exists r, m; auto|exfalso; specialize (Hfuel ltac:(lia)); lia].
+  - destruct (r_count r) as [|k] eqn:Ec; [exists r, m; auto|].
+    assert (Hwf1 : wf (r_dir r)) by (destruct Hinv as [_ [I2 _]]; rewrite I2; apply wf_del_expired; auto).
+    destruct (do_list_linv s (r_dir r) (r_last r) false (S k) p Hwf1) as [r1 [E1 P]].
+    rewrite E1.
+    pose proof (linv_step elive d0 c p L0 r m k r1 (S k) Hinv Ec P) as Hnew.
+    apply (IH s p d0 c L0 _ (m + S k) Hwf Hnew).
+    cbn [r_count]. intros Hpos.
+    (* an expired entry was seen, so the round consumed at least one candidate *)
+    destruct Hinv as [_ [_ [I3 [I4 _]]]]. destruct P as [_ [_ [_ [_ [_ [P7 _]]]]]].
     assert (Hl : r_last r <> "") by (apply I3; lia).
-    specialize (I4 Hl).
-    assert (Hfl1 : r_flag r || r_flag r1 = false).
-    { apply not_true_iff_false. intro Ef.
-      rewrite (valid_loop_flag_mono _ _ _ _ _ H) in Hfl; [discriminate|]. cbn [r_flag]. exact Ef. }
-    apply orb_false_iff in Hfl1. destruct Hfl1 as [_ Hfl1].
-    assert (Hwf1 : wf (r_dir r)) by (rewrite I2; apply wf_del_expired; auto).
-    destruct (do_list_spec s (r_dir r) (r_last r) false (S k) p r1 Hwf1 E1 Hfl1) as [D1 [D2 [D3 [D4 [D5 _]]]]].
-    rewrite I4 in *.
-    eapply (IH s p d0 c L0 _ (m + S k) r' Hwf Hc); [|exact H|exact Hfl].
-    unfold vinv. cbn [r_names r_dir r_count r_last].
-    split; [|split; [|split; [|split]]].
-    + rewrite I1, D1, <- map_app, <- filter_app, firstn_app_firstn. reflexivity.
-    + rewrite D3, I2, del_expired_app, firstn_app_firstn. reflexivity.
-    + intros Hpos Hlast. specialize (D5 Hlast). rewrite D5 in D2. simpl in D2. lia.
-    + intros Hlast. rewrite (D4 Hlast). rewrite skipn_add. reflexivity.
-    + rewrite I5, Ec. rewrite (firstn_filter_refill elive (skipn m c) (S k)).
-      rewrite app_assoc, <- filter_app, firstn_app_firstn, <- skipn_add.
-      rewrite D2. do 2 f_equal. f_equal. apply filter_ext_in_eq. intros e _. symmetry. apply eexp_negb_elive.
+    rewrite (I4 Hl) in P7.
+    assert (Hne : firstn (S k) (skipn m c) <> []) by (intro E; rewrite E in P7; simpl in P7; lia).
+    specialize (Hfuel ltac:(lia)). rewrite skipn_add.
+    pose proof (skipn_shorter (S k) (skipn m c) Hne). lia.
 Qed.
 
-Lemma list_valid_spec : forall s d start incl L p r,
-  wf d -> list_valid s d start incl L p = Some r -> r_flag r = false ->
-  exists m, vinv d (cand start incl p d) p L r m /\ r_count r = 0.
+Lemma list_valid_spec : forall s d start incl L p, wf d ->
+  exists r m, list_valid s d start incl L p = Some r /\
+              linv elive d (cand start incl p d) p L r m /\ r_count r = 0.
 Proof.
-  intros s d start incl L p r Hwf H Hfl. unfold list_valid in H.
-  destruct (do_list s d start incl L p) as [r0|] eqn:E0; [|discriminate].
-  assert (Hfl0 : r_flag r0 = false).
-  { destruct (r_flag r0) eqn:Ef; [|reflexivity].
-    rewrite (valid_loop_flag_mono _ _ _ _ _ H Ef) in Hfl. discriminate. }
-  destruct (do_list_spec s d start incl L p r0 Hwf E0 Hfl0) as [D1 [D2 [D3 [D4 [D5 _]]]]].
-  eapply (valid_loop_spec _ s p d (cand start incl p d) L r0 L); eauto.
-  - intros e He. eapply cand_in; eauto.
-  - unfold vinv. split; [exact D1|]. split; [exact D3|]. split; [|split; [exact D4|]].
-    + intros Hpos Hlast. specialize (D5 Hlast). rewrite D5 in D2. simpl in D2. lia.
-    + rewrite (firstn_filter_refill elive _ L). rewrite D2. do 2 f_equal. f_equal.
-      apply filter_ext_in_eq. intros e _. symmetry. apply eexp_negb_elive.
+  intros s d start incl L p Hwf. unfold list_valid.
+  destruct (do_list_linv s d start incl L p Hwf) as [r0 [E0 P]]. rewrite E0.
+  apply (valid_loop_spec _ s p d (cand start incl p d) L r0 L Hwf P).
+  intros _. rewrite skipn_length. unfold cand.
+  pose proof (length_filter_le (sel start incl p) d). lia.
 Qed.
 
 (* ================= doListPatternMatchedEntries / StreamListDirectoryEntries ================= *)
@@ -121,108 +134,95 @@ Proof. intros. rewrite filter_filter. reflexivity. Qed.
 Lemma missed_none : forall p n, missed p "" "" n = false.
 Proof. intros. unfold missed. reflexivity. Qed.
 
-Definition sinv (d0 : dirst) (c : list entry) (p rest excl : string) (L0 : nat) (r : lres) (m : nat) : Prop :=
-  r_names r = map ename (filter (good p rest excl) (firstn m c)) /\
-  r_dir r = del_expired (firstn m c) d0 /\
-  (r_last r <> "" -> cand (r_last r) false p (r_dir r) = skipn m c) /\
-  firstn L0 (filter (good p rest excl) c) =
-    filter (good p rest excl) (firstn m c) ++ firstn (r_count r) (filter (good p rest excl) (skipn m c)).
-
-Lemma pattern_list_spec : forall s d start incl L p rest excl r,
-  wf d -> pattern_list s d start incl L p rest excl = Some r -> r_flag r = false ->
-  exists m, sinv d (cand start incl p d) p rest excl L r m /\ r_restart r = false.
+Lemma pattern_list_spec : forall s d start incl L p rest excl, wf d ->
+  exists r m, pattern_list s d start incl L p rest excl = Some r /\
+              linv (good p rest excl) d (cand start incl p d) p L r m.
 Proof.
-  intros s d start incl L p rest excl r Hwf H Hfl. unfold pattern_list in H.
-  destruct (list_valid s d start incl L p) as [r0|] eqn:E0; [|discriminate].
-  set (c := cand start incl p d) in *.
-  assert (Hr : r = {| r_count := length (filter (missed p rest excl) (r_names r0)); r_last := r_last r0;
-                     r_names := filter (fun n => negb (missed p rest excl n)) (r_names r0); r_dir := r_dir r0;
-                     r_flag := r_flag r0; r_restart := false |}).
+  intros s d start incl L p rest excl Hwf. unfold pattern_list.
+  destruct (list_valid_spec s d start incl L p Hwf) as [r0 [m [E0 [[V1 [V2 [V3 [V4 [V6 [V7 V5]]]]]] V0]]]].
+  rewrite E0. set (c := cand start incl p d) in *.
+  rewrite V0 in V5. cbn [firstn] in V5. rewrite app_nil_r in V5.
+  set (r := {| r_count := length (filter (missed p rest excl) (r_names r0)); r_last := r_last r0;
+               r_names := filter (fun n => negb (missed p rest excl n)) (r_names r0); r_dir := r_dir r0 |}).
+  assert (Hr : (if String.eqb rest "" && String.eqb excl ""
+                then Some {| r_count := 0; r_last := r_last r0; r_names := r_names r0; r_dir := r_dir r0 |}
+                else Some r) = Some r).
   { destruct (String.eqb_spec rest "") as [Er|Er]; destruct (String.eqb_spec excl "") as [Ex|Ex];
-      cbn [andb] in H; inversion H; subst; try reflexivity.
-    f_equal.
+      cbn [andb]; try reflexivity. subst rest excl. unfold r. f_equal. f_equal.
     - rewrite filter_none; [reflexivity|]. intros. apply missed_none.
     - symmetry. apply filter_all. intros. rewrite missed_none. reflexivity. }
-  clear H. subst r. cbn [r_flag] in Hfl.
-  destruct (list_valid_spec s d start incl L p r0 Hwf E0 Hfl) as [m [[V1 [V2 [V3 [V4 V5]]]] V0]].
-  fold c in V1, V2, V4, V5. rewrite V0 in V5. cbn [firstn] in V5. rewrite app_nil_r in V5.
-  exists m. split; [|reflexivity]. unfold sinv. cbn [r_names r_dir r_last r_count].
-  split; [|split; [exact V2|split; [exact V4|]]].
-  - rewrite V1. rewrite filter_map_comm. rewrite good_filter. reflexivity.
+  rewrite Hr. exists r, m. split; [reflexivity|].
+  assert (Hcount : r_count r = length (filter (fun e => negb (okE p rest excl e)) (filter elive (firstn m c)))).
+  { unfold r. cbn [r_count]. rewrite V1, length_filter_map. f_equal. apply filter_ext_in_eq. intros e _.
+    unfold okE. rewrite negb_involutive. reflexivity. }
+  unfold linv. split; [|split; [exact V2|split; [|split; [exact V4|split; [exact V6|split]]]]].
+  - unfold r. cbn [r_names]. rewrite V1. rewrite filter_map_comm. rewrite good_filter. reflexivity.
+  - intros Hpos Hl. specialize (V6 Hl). rewrite Hcount, V6 in Hpos. simpl in Hpos. lia.
+  - rewrite Hcount. etransitivity; [apply length_filter_le|apply length_filter_le].
   - rewrite (good_filter p rest excl c).
     rewrite (firstn_filter_refill (okE p rest excl) (filter elive c) L).
     assert (Hsk : skipn L (filter elive c) = filter elive (skipn m c)).
     { apply (firstn_app_skipn_eq _ (filter elive (firstn m c))); [apply filter_firstn_skipn|exact V5]. }
-    rewrite V5, Hsk. rewrite <- !good_filter. do 2 f_equal.
-    rewrite V1. rewrite length_filter_map. f_equal. apply filter_ext_in_eq. intros e _.
-    unfold okE. rewrite negb_involutive. reflexivity.
+    rewrite V5, Hsk. rewrite <- !good_filter. rewrite Hcount. reflexivity.
 Qed.
 
-Lemma stream_loop_flag_mono : forall fuel s p rest excl r r',
-  stream_loop fuel s p rest excl r = Some r' ->
-  (r_flag r = true -> r_flag r' = true) /\ (r_restart r = true -> r_restart r' = true).
+Lemma stream_loop_spec : forall fuel s p rest excl d0 c L0 r m,
+  wf d0 -> linv (good p rest excl) d0 c p L0 r m -> (0 < r_count r -> length (skipn m c) < fuel) ->
+  exists r' m', stream_loop fuel s p rest excl r = Some r' /\
+                linv (good p rest excl) d0 c p L0 r' m' /\ r_count r' = 0.
 Proof.
-  induction fuel as [|f IH]; intros s p rest excl r r' H; cbn [stream_loop] in H.
-  - destruct (r_count r); [inversion H; subst; auto|discriminate].
-  - destruct (r_count r) eqn:Ec; [inversion H; subst; auto|].
-    destruct (pattern_list s (r_dir r) (r_last r) false (S n) p rest excl) as [r1|]; [|discriminate].
-    destruct (IH _ _ _ _ _ _ H) as [H1 H2]. cbn [r_flag r_restart] in H1, H2.
-    split; intros Hf; [apply H1|apply H2]; rewrite Hf; reflexivity.
-Qed.
-
-Lemma stream_loop_spec : forall fuel s p rest excl d0 c L0 r m r',
-  wf d0 -> sinv d0 c p rest excl L0 r m -> stream_loop fuel s p rest excl r = Some r' ->
-  r_flag r' = false -> r_restart r' = false ->
-  exists m', sinv d0 c p rest excl L0 r' m' /\ r_count r' = 0.
-Proof.
-  induction fuel as [|f IH]; intros s p rest excl d0 c L0 r m r' Hwf Hinv H Hfl Hrs; cbn [stream_loop] in H.
-  - destruct (r_count r) eqn:Ec; [|discriminate]. inversion H; subst r'. exists m. auto.
-  - destruct (r_count r) as [|k] eqn:Ec; [inversion H; subst r'; exists m; auto|].
-    destruct (pattern_list s (r_dir r) (r_last r) false (S k) p rest excl) as [r1|] eqn:E1; [|discriminate].
-    destruct (stream_loop_flag_mono _ _ _ _ _ _ _ H) as [M1 M2]. cbn [r_flag r_restart] in M1, M2.
-    assert (Hfl1 : r_flag r || r_flag r1 = false).
-    { apply not_true_iff_false. intro Ef. rewrite (M1 Ef) in Hfl. discriminate. }
-    assert (Hrs1 : r_restart r || String.eqb (r_last r) "" = false).
-    { apply not_true_iff_false. intro Ef. rewrite (M2 Ef) in Hrs. discriminate. }
-    apply orb_false_iff in Hfl1. destruct Hfl1 as [_ Hfl1].
-    apply orb_false_iff in Hrs1. destruct Hrs1 as [_ Hl]. apply String.eqb_neq in Hl.
-    destruct Hinv as [I1 [I2 [I4 I5]]]. specialize (I4 Hl).
-    assert (Hwf1 : wf (r_dir r)) by (rewrite I2; apply wf_del_expired; auto).
-    destruct (pattern_list_spec s (r_dir r) (r_last r) false (S k) p rest excl r1 Hwf1 E1 Hfl1)
-      as [m1 [[P1 [P2 [P4 P5]]] _]].
-    rewrite I4 in *.
-    eapply (IH s p rest excl d0 c L0 _ (m + m1) r' Hwf); [|exact H|exact Hfl|exact Hrs].
-    unfold sinv. cbn [r_names r_dir r_count r_last].
-    split; [|split; [|split]].
-    + rewrite I1, P1, <- map_app, <- filter_app, firstn_app_firstn. reflexivity.
-    + rewrite P2, I2, del_expired_app, firstn_app_firstn. reflexivity.
-    + intros Hlast. rewrite (P4 Hlast). rewrite skipn_add. reflexivity.
-    + rewrite I5, Ec, P5. rewrite app_assoc, <- filter_app, firstn_app_firstn, <- skipn_add. reflexivity.
+  induction fuel as [|f IH]; intros s p rest excl d0 c L0 r m Hwf Hinv Hfuel; cbn [stream_loop].
+  - destruct (r_count r) eqn:Ec; [exists r, m; auto|exfalso; specialize (Hfuel ltac:(lia)); lia].
+  - destruct (r_count r) as [|k] eqn:Ec; [exists r, m; auto|].
+    assert (Hwf1 : wf (r_dir r)) by (destruct Hinv as [_ [I2 _]]; rewrite I2; apply wf_del_expired; auto).
+    destruct (pattern_list_spec s (r_dir r) (r_last r) false (S k) p rest excl Hwf1) as [r1 [m1 [E1 P]]].
+    rewrite E1.
+    pose proof (linv_step (good p rest excl) d0 c p L0 r m k r1 m1 Hinv Ec P) as Hnew.
+    apply (IH s p rest excl d0 c L0 _ (m + m1) Hwf Hnew).
+    cbn [r_count]. intros Hpos.
+    destruct Hinv as [_ [_ [I3 [I4 _]]]]. destruct P as [_ [_ [_ [_ [_ [P7 _]]]]]].
+    assert (Hl : r_last r <> "") by (apply I3; lia).
+    rewrite (I4 Hl) in P7.
+    assert (Hne : firstn m1 (skipn m c) <> []) by (intro E; rewrite E in P7; simpl in P7; lia).
+    specialize (Hfuel ltac:(lia)). rewrite skipn_add.
+    pose proof (skipn_shorter m1 (skipn m c) Hne). lia.
 Qed.
 
 (* the selection the implementation computes, entry-wise *)
 Definition impl_sel (start : string) (incl : bool) (prefix pat excl : string) (d : dirst) : list entry :=
   filter (good (eff_prefix prefix pat) (snd (split_pattern pat)) excl) (cand start incl (eff_prefix prefix pat) d).
 
-Lemma stream_list_spec : forall s d start incl L prefix pat excl r,
-  wf d -> stream_list s d start incl L prefix pat excl = Some r -> r_flag r = false -> r_restart r = false ->
-  r_names r = map ename (firstn L (impl_sel start incl prefix pat excl d)) /\
-  exists m, r_dir r = del_expired (firstn m (cand start incl (eff_prefix prefix pat) d)) d.
+Lemma stream_list_inv : forall s d start incl L prefix pat excl, wf d ->
+  exists r m, stream_list s d start incl L prefix pat excl = Some r /\
+    linv (good (eff_prefix prefix pat) (snd (split_pattern pat)) excl) d
+         (cand start incl (eff_prefix prefix pat) d) (eff_prefix prefix pat) L r m /\
+    r_count r = 0.
 Proof.
-  intros s d start incl L prefix pat excl r Hwf H Hfl Hrs. unfold stream_list in H.
-  set (p := eff_prefix prefix pat) in *. set (rest := snd (split_pattern pat)) in *.
-  destruct (pattern_list s d start incl L p rest excl) as [r0|] eqn:E0; [|discriminate].
-  destruct (stream_loop_flag_mono _ _ _ _ _ _ _ H) as [M1 _].
-  assert (Hfl0 : r_flag r0 = false) by (destruct (r_flag r0); [rewrite M1 in Hfl; [discriminate|reflexivity]|reflexivity]).
-  destruct (pattern_list_spec s d start incl L p rest excl r0 Hwf E0 Hfl0) as [m0 [Hinv _]].
-  destruct (stream_loop_spec _ s p rest excl d _ L r0 m0 r Hwf Hinv H Hfl Hrs) as [m [[S1 [S2 [_ S5]]] S0]].
-  rewrite S0 in S5. cbn [firstn] in S5. rewrite app_nil_r in S5.
-  split; [|exists m; exact S2]. unfold impl_sel. fold p rest. rewrite S5. exact S1.
+  intros s d start incl L prefix pat excl Hwf. unfold stream_list.
+  set (p := eff_prefix prefix pat). set (rest := snd (split_pattern pat)).
+  destruct (pattern_list_spec s d start incl L p rest excl Hwf) as [r0 [m0 [E0 P]]]. rewrite E0.
+  apply (stream_loop_spec _ s p rest excl d (cand start incl p d) L r0 m0 Hwf P).
+  intros _. rewrite skipn_length. unfold cand.
+  pose proof (length_filter_le (sel start incl p) d). lia.
 Qed.
 
-(* under the static hypotheses the implementation's selection is the requested one *)
+Lemma stream_list_spec : forall s d start incl L prefix pat excl, wf d ->
+  exists r, stream_list s d start incl L prefix pat excl = Some r /\
+    r_names r = map ename (firstn L (impl_sel start incl prefix pat excl d)) /\
+    wf (r_dir r) /\ filter elive (r_dir r) = filter elive d.
+Proof.
+  intros s d start incl L prefix pat excl Hwf.
+  destruct (stream_list_inv s d start incl L prefix pat excl Hwf) as [r [m [E [[S1 [S2 [_ [_ [_ [_ S5]]]]]] S0]]]].
+  exists r. split; [exact E|].
+  rewrite S0 in S5. cbn [firstn] in S5. rewrite app_nil_r in S5.
+  split; [unfold impl_sel; rewrite S5; exact S1|]. split.
+  - rewrite S2. apply wf_del_expired. auto.
+  - rewrite S2. apply del_expired_live; auto. intros e He. eapply wf_incl_firstn_cand; eauto.
+Qed.
+
+(* unless a prefix and a pattern are given together, the implementation's selection is the requested one *)
 Lemma impl_sel_spec : forall start incl prefix pat excl d,
-  pat_trigger prefix pat = false ->
+  trig_both prefix pat = false ->
   impl_sel start incl prefix pat excl d = filter (spec_sel start incl prefix pat excl) d.
 Proof.
   intros start incl prefix pat excl d Ht. unfold impl_sel, cand. rewrite filter_filter.
@@ -257,36 +257,39 @@ Proof.
     + apply Nat.ltb_ge in El. apply Nat.leb_gt. lia.
 Qed.
 
-Theorem list_entries_exact : forall s d start incl L prefix pat excl names more r,
-  wf d -> pat_trigger prefix pat = false ->
-  list_entries s d start incl L prefix pat excl = Some (names, more, r) ->
-  r_flag r = false -> r_restart r = false ->
-  let M := spec_names d start incl prefix pat excl in
-  names = firstn L M /\ more = Nat.ltb L (length M) /\
-  wf (r_dir r) /\ filter elive (r_dir r) = filter elive d.
+(* the call terminates, the page is the first L matches in name order, hasMore is exact,
+   and the directory lost expired children only *)
+Definition exact_at (s : store) (d : dirst) (start : string) (incl : bool) (L : nat) (prefix pat excl : string) : Prop :=
+  exists names more r,
+    list_entries s d start incl L prefix pat excl = Some (names, more, r) /\
+    names = firstn L (spec_names d start incl prefix pat excl) /\
+    more = Nat.ltb L (length (spec_names d start incl prefix pat excl)) /\
+    wf (r_dir r) /\ filter elive (r_dir r) = filter elive d.
+
+Theorem list_entries_exact : forall s d start incl L prefix pat excl,
+  wf d -> trig_both prefix pat = false -> exact_at s d start incl L prefix pat excl.
 Proof.
-  intros s d start incl L prefix pat excl names more r Hwf Ht H Hfl Hrs M. unfold list_entries in H.
-  destruct (stream_list s d start incl (S L) prefix pat excl) as [r0|] eqn:E0; [|discriminate].
-  cbv zeta in H. injection H as Hn Hm Hr. subst r0.
-  destruct (stream_list_spec s d start incl (S L) prefix pat excl r Hwf E0 Hfl Hrs) as [S1 [m S2]].
-  rewrite impl_sel_spec in S1 by auto. rewrite <- firstn_map in S1. fold (spec_names d start incl prefix pat excl) in S1.
-  fold M in S1. rewrite S1 in Hn, Hm.
+  intros s d start incl L prefix pat excl Hwf Ht. unfold exact_at, list_entries.
+  destruct (stream_list_spec s d start incl (S L) prefix pat excl Hwf) as [r [E [S1 [S2 S3]]]].
+  rewrite E. rewrite impl_sel_spec in S1 by auto. rewrite <- firstn_map in S1.
+  fold (spec_names d start incl prefix pat excl) in S1.
+  set (M := spec_names d start incl prefix pat excl) in *.
   destruct (page_cut M L) as [P1 P2].
-  split; [rewrite <- P1; symmetry; exact Hn|]. split; [rewrite <- P2; symmetry; exact Hm|]. split.
-  - rewrite S2. apply wf_del_expired. auto.
-  - rewrite S2. apply del_expired_live; auto. intros e He. eapply wf_incl_firstn_cand; eauto.
+  eexists _, _, r. split; [reflexivity|]. rewrite S1.
+  split; [exact P1|]. split; [exact P2|]. split; assumption.
 Qed.
 
 (* ================= expired entries never shorten the valid page ================= *)
-Theorem list_valid_refill : forall s d start incl L p r,
-  wf d -> list_valid s d start incl L p = Some r -> r_flag r = false ->
-  r_names r = firstn L (map ename (filter elive (cand start incl p d))) /\
-  filter elive (r_dir r) = filter elive d /\
-  (forall e, In e d -> In e (r_dir r) \/ eexp e = true) /\
-  (forall e, In e (r_dir r) -> In e d).
+Theorem list_valid_refill : forall s d start incl L p, wf d ->
+  exists r, list_valid s d start incl L p = Some r /\
+    r_names r = firstn L (map ename (filter elive (cand start incl p d))) /\
+    filter elive (r_dir r) = filter elive d /\
+    (forall e, In e d -> In e (r_dir r) \/ eexp e = true) /\
+    (forall e, In e (r_dir r) -> In e d).
 Proof.
-  intros s d start incl L p r Hwf H Hfl.
-  destruct (list_valid_spec s d start incl L p r Hwf H Hfl) as [m [[V1 [V2 [_ [_ V5]]]] V0]].
+  intros s d start incl L p Hwf.
+  destruct (list_valid_spec s d start incl L p Hwf) as [r [m [E [[V1 [V2 [_ [_ [_ [_ V5]]]]]] V0]]]].
+  exists r. split; [exact E|].
   rewrite V0 in V5. cbn [firstn] in V5. rewrite app_nil_r in V5.
   assert (Hinc : forall e, In e (firstn m (cand start incl p d)) -> In e d)
     by (intros; eapply wf_incl_firstn_cand; eauto).
@@ -295,82 +298,6 @@ Proof.
   - intros e He. destruct (eexp e) eqn:Ee; [right; reflexivity|left].
     rewrite V2. apply del_expired_subset_live; auto. unfold elive. unfold eexp in Ee. rewrite Ee. reflexivity.
   - intros e He. rewrite V2 in He. eapply del_expired_in; eauto.
-Qed.
-
-(* on the leveldb stores the only store-level trigger is the position of the FIRST call *)
-Lemma lvl_below_visited : forall d v start0 incl0 L0 p,
-  wf d -> v = lvl_list d start0 incl0 L0 p -> v <> [] ->
-  lvl_below (del_expired v d) (last_name v) p = false.
-Proof.
-  intros d v start0 incl0 L0 p Hwf Ev Hne. unfold lvl_below.
-  destruct (seek (last_name v) (del_expired v d)) as [|h t] eqn:Es; [apply andb_false_r|].
-  assert (Hwf' : wf (del_expired v d)) by (apply wf_del_expired; auto).
-  destruct (seek_spec (last_name v) (del_expired v d) (proj1 Hwf')) as [_ [S2 _]].
-  assert (Hh : sle (last_name v) (ename h)) by (apply S2; rewrite Es; left; auto).
-  destruct (last_name_in v Hne) as [l' [e [El En]]].
-  assert (Hp : String.prefix p (ename e) = true).
-  { apply (lvl_iter_prefix p start0 incl0 (seek (if String.eqb start0 "" then p else start0) d) L0).
-    unfold lvl_list in Ev. rewrite <- Ev, El. apply in_or_app. right. left. auto. }
-  apply prefix_sle in Hp. rewrite <- En in Hp.
-  assert (Hlt : String.ltb (ename h) p = false) by (apply ltb_false; eapply sle_trans; eauto).
-  rewrite Hlt. apply andb_false_r.
-Qed.
-
-Lemma lvl_valid_loop_flag : forall fuel p r r',
-  wf (r_dir r) -> valid_loop fuel Lvl p r = Some r' -> r_flag r = false ->
-  (0 < r_count r -> lvl_below (r_dir r) (r_last r) p = false) -> r_flag r' = false.
-Proof.
-  induction fuel as [|f IH]; intros p r r' Hwf H Hfl Hb; cbn [valid_loop] in H.
-  - destruct (r_count r); [congruence|discriminate].
-  - destruct (r_count r) as [|k] eqn:Ec; [congruence|].
-    destruct (do_list Lvl (r_dir r) (r_last r) false (S k) p) as [r1|] eqn:E1; [|discriminate].
-    unfold do_list, wrapper_list in E1. inversion E1; subst r1; clear E1.
-    cbn [w_vis w_last w_flag] in H.
-    eapply IH; [| exact H | |]; cbn [r_dir r_flag r_count r_last].
-    + apply wf_del_expired; auto.
-    + rewrite Hfl. cbn [orb]. apply Hb. lia.
-    + intros Hpos. eapply lvl_below_visited; eauto.
-      intro E. rewrite E in Hpos. simpl in Hpos. lia.
-Qed.
-
-Theorem lvl_list_valid_flag : forall d incl L p r,
-  wf d -> list_valid Lvl d "" incl L p = Some r -> r_flag r = false.
-Proof.
-  intros d incl L p r Hwf H. unfold list_valid in H.
-  destruct (do_list Lvl d "" incl L p) as [r0|] eqn:E0; [|discriminate].
-  unfold do_list, wrapper_list in E0. inversion E0; subst r0; clear E0.
-  cbn [w_vis w_last w_flag r_dir] in H.
-  eapply lvl_valid_loop_flag; [| exact H | |]; cbn [r_dir r_flag r_count r_last].
-  - apply wf_del_expired; auto.
-  - reflexivity.
-  - intros Hpos. eapply lvl_below_visited; eauto.
-    intro E. rewrite E in Hpos. simpl in Hpos. lia.
-Qed.
-
-(* ================= the full statement and its decidable trigger ================= *)
-Definition exact_at (s : store) (d : dirst) (start : string) (incl : bool) (L : nat) (prefix pat excl : string) : Prop :=
-  exists names more r,
-    list_entries s d start incl L prefix pat excl = Some (names, more, r) /\
-    names = firstn L (spec_names d start incl prefix pat excl) /\
-    more = Nat.ltb L (length (spec_names d start incl prefix pat excl)).
-
-(* the dynamic triggers of one call: a store-level trigger was hit (leveldb: start below the
-   prefix range; generic path: a re-query), a refill restarted from "", or no termination *)
-Definition run_trigger (s : store) (d : dirst) (start : string) (incl : bool) (L : nat) (prefix pat excl : string) : bool :=
-  match list_entries s d start incl L prefix pat excl with
-  | None => true
-  | Some (_, _, r) => r_flag r || r_restart r
-  end.
-
-Theorem exact_partial : forall s d start incl L prefix pat excl,
-  wf d -> pat_trigger prefix pat = false -> run_trigger s d start incl L prefix pat excl = false ->
-  exact_at s d start incl L prefix pat excl.
-Proof.
-  intros s d start incl L prefix pat excl Hwf Ht Hr. unfold run_trigger in Hr.
-  destruct (list_entries s d start incl L prefix pat excl) as [[[names more] r]|] eqn:E; [|discriminate].
-  apply orb_false_iff in Hr. destruct Hr as [Hfl Hrs].
-  destruct (list_entries_exact s d start incl L prefix pat excl names more r Hwf Ht E Hfl Hrs) as [H1 [H2 _]].
-  exists names, more, r. auto.
 Qed.
 
 (* ================= pagination by the last returned name ================= *)
@@ -399,24 +326,29 @@ Proof.
   - intro H. apply Hne. rewrite H. reflexivity.
 Qed.
 
-Theorem paginate_exact : forall fuel s d start incl L prefix pat excl pages,
-  wf d -> pat_trigger prefix pat = false -> 0 < L ->
-  paginate fuel s d start incl L prefix pat excl = Some (pages, false, false) ->
-  List.concat pages = spec_names d start incl prefix pat excl.
+Theorem paginate_exact : forall fuel s d start incl L prefix pat excl,
+  wf d -> trig_both prefix pat = false -> 0 < L ->
+  length (spec_names d start incl prefix pat excl) < fuel ->
+  exists pages, paginate fuel s d start incl L prefix pat excl = Some pages /\
+                List.concat pages = spec_names d start incl prefix pat excl /\
+                Forall (fun pg => length pg <= L) pages.
 Proof.
-  induction fuel as [|f IH]; intros s d start incl L prefix pat excl pages Hwf Ht HL H; [discriminate|].
-  cbn [paginate] in H.
-  destruct (list_entries s d start incl L prefix pat excl) as [[[names more] r]|] eqn:E; [|discriminate].
+  induction fuel as [|f IH]; intros s d start incl L prefix pat excl Hwf Ht HL Hf; [lia|].
+  cbn [paginate].
+  destruct (list_entries_exact s d start incl L prefix pat excl Hwf Ht) as [names [more [r [E [Hn [Hm [Hwf' Hlive]]]]]]].
+  rewrite E. set (M := spec_names d start incl prefix pat excl) in *.
+  assert (HnL : length names <= L) by (rewrite Hn, firstn_length; lia).
   destruct (more && negb (is_nil names)) eqn:Ec.
-  - destruct (paginate f s (r_dir r) (last_str names) false L prefix pat excl) as [[[pages' fl] rs]|] eqn:E2; [|discriminate].
-    injection H as Hp Hf Hr. apply orb_false_iff in Hf, Hr. destruct Hf as [Hf1 Hf2]. destruct Hr as [Hr1 Hr2]. subst fl rs pages.
-    destruct (list_entries_exact s d start incl L prefix pat excl names more r Hwf Ht E Hf1 Hr1) as [Hn [Hm [Hwf' Hlive]]].
-    apply andb_true_iff in Ec. destruct Ec as [_ Hnn]. apply negb_true_iff in Hnn. apply is_nil_false in Hnn.
-    cbn [List.concat]. rewrite (IH s (r_dir r) (last_str names) false L prefix pat excl pages' Hwf' Ht HL E2).
-    rewrite (spec_names_live d (r_dir r)) by exact Hlive.
-    rewrite Hn. rewrite spec_names_cont; [apply firstn_skipn|auto|rewrite <- Hn; auto].
-  - injection H as Hp Hf Hr. subst pages.
-    destruct (list_entries_exact s d start incl L prefix pat excl names more r Hwf Ht E Hf Hr) as [Hn [Hm _]].
+  - apply andb_true_iff in Ec. destruct Ec as [Hmore Hnn]. apply negb_true_iff in Hnn. apply is_nil_false in Hnn.
+    rewrite Hm in Hmore. apply Nat.ltb_lt in Hmore.
+    assert (Hrest : spec_names (r_dir r) (last_str names) false prefix pat excl = skipn L M).
+    { rewrite (spec_names_live d (r_dir r)) by exact Hlive. rewrite Hn.
+      apply spec_names_cont; [auto|fold M; rewrite <- Hn; auto]. }
+    destruct (IH s (r_dir r) (last_str names) false L prefix pat excl Hwf' Ht HL) as [pages [E2 [Hc Hall]]].
+    { rewrite Hrest, skipn_length. lia. }
+    rewrite E2. exists (names :: pages). split; [reflexivity|]. split; [|constructor; auto].
+    cbn [List.concat]. rewrite Hc, Hrest, Hn. apply firstn_skipn.
+  - exists [names]. split; [reflexivity|]. split; [|constructor; auto].
     cbn [List.concat]. rewrite app_nil_r. rewrite Hn.
     apply andb_false_iff in Ec. destruct Ec as [Ec|Ec].
     + rewrite Hm in Ec. apply Nat.ltb_ge in Ec. apply firstn_all2. auto.
@@ -437,68 +369,46 @@ Theorem spec_names_nodup : forall d start incl prefix pat excl,
 Proof. intros d start incl prefix pat excl [Hs _]. apply sorted_nodup_names. apply sorted_filter. auto. Qed.
 
 (* ---- the gRPC style: follow StreamListDirectoryEntries' lastFileName ---- *)
-Lemma stream_list_inv : forall s d start incl L prefix pat excl r,
-  wf d -> stream_list s d start incl L prefix pat excl = Some r -> r_flag r = false -> r_restart r = false ->
-  exists m, sinv d (cand start incl (eff_prefix prefix pat) d) (eff_prefix prefix pat) (snd (split_pattern pat)) excl L r m /\
-            r_count r = 0.
-Proof.
-  intros s d start incl L prefix pat excl r Hwf H Hfl Hrs. unfold stream_list in H.
-  set (p := eff_prefix prefix pat) in *. set (rest := snd (split_pattern pat)) in *.
-  destruct (pattern_list s d start incl L p rest excl) as [r0|] eqn:E0; [|discriminate].
-  destruct (stream_loop_flag_mono _ _ _ _ _ _ _ H) as [M1 _].
-  assert (Hfl0 : r_flag r0 = false) by (apply not_true_iff_false; intro Ef; rewrite (M1 Ef) in Hfl; discriminate).
-  destruct (pattern_list_spec s d start incl L p rest excl r0 Hwf E0 Hfl0) as [m0 [Hinv _]].
-  eapply stream_loop_spec; eauto.
-Qed.
+Lemma trig_both_none : forall prefix, trig_both prefix "" = false.
+Proof. intros. unfold trig_both. cbn. apply andb_false_r. Qed.
 
-Lemma pat_trigger_none : forall prefix, pat_trigger prefix "" = false.
-Proof. intros. unfold pat_trigger, trig_both. cbn. rewrite andb_false_r. reflexivity. Qed.
-
-Theorem paginate_stream_exact : forall fuel s d start incl L prefix pages,
-  wf d -> 0 < L ->
-  paginate_stream fuel s d start incl L prefix = Some (pages, false, false) ->
-  List.concat pages = spec_names d start incl prefix "" "".
+Theorem paginate_stream_exact : forall fuel s d start incl L prefix,
+  wf d -> 0 < L -> length (spec_names d start incl prefix "" "") < fuel ->
+  exists pages, paginate_stream fuel s d start incl L prefix = Some pages /\
+                List.concat pages = spec_names d start incl prefix "" "" /\
+                Forall (fun pg => length pg <= L) pages.
 Proof.
-  induction fuel as [|f IH]; intros s d start incl L prefix pages Hwf HL H; [discriminate|].
-  cbn [paginate_stream] in H.
-  destruct (stream_list s d start incl L prefix "" "") as [r|] eqn:E; [|discriminate].
+  induction fuel as [|f IH]; intros s d start incl L prefix Hwf HL Hf; [lia|].
+  cbn [paginate_stream].
   assert (Hspec : forall d' st inc, spec_names d' st inc prefix "" "" = map ename (impl_sel st inc prefix "" "" d')).
-  { intros. unfold spec_names. rewrite impl_sel_spec by apply pat_trigger_none. reflexivity. }
+  { intros. unfold spec_names. rewrite impl_sel_spec by apply trig_both_none. reflexivity. }
+  destruct (stream_list_inv s d start incl L prefix "" "" Hwf) as [r [m [E [[S1 [S2 [_ [S4 [S6 [_ S5]]]]]] S0]]]].
+  rewrite E.
+  set (p := eff_prefix prefix "") in *. set (rest := snd (split_pattern "")) in *.
+  set (c := cand start incl p d) in *.
+  rewrite S0 in S5. cbn [firstn] in S5. rewrite app_nil_r in S5.
+  assert (HM : spec_names d start incl prefix "" "" = map ename (filter (good p rest "") c)).
+  { rewrite Hspec. reflexivity. }
+  assert (Hnames : r_names r = firstn L (spec_names d start incl prefix "" "")).
+  { rewrite HM, firstn_map, S5. exact S1. }
   destruct (is_nil (r_names r)) eqn:En.
-  - injection H as Hp Hf Hr. subst pages. apply is_nil_true in En.
-    destruct (stream_list_spec s d start incl L prefix "" "" r Hwf E Hf Hr) as [S1 _].
-    rewrite En in S1. cbn [List.concat]. rewrite Hspec.
-    symmetry in S1. apply map_eq_nil in S1. apply firstn_nil_inv in S1; [|auto]. rewrite S1. reflexivity.
-  - destruct (paginate_stream f s (r_dir r) (r_last r) false L prefix) as [[[pages' fl] rs]|] eqn:E2; [|discriminate].
-    injection H as Hp Hf Hr. subst pages.
-    apply orb_false_iff in Hf. destruct Hf as [Hf1 Hf2]. subst fl.
-    apply orb_false_iff in Hr. destruct Hr as [Hr Hl]. apply orb_false_iff in Hr. destruct Hr as [Hr1 Hr2]. subst rs.
-    apply String.eqb_neq in Hl.
-    destruct (stream_list_inv s d start incl L prefix "" "" r Hwf E Hf1 Hr1) as [m [[S1 [S2 [S4 S5]]] S0]].
-    set (p := eff_prefix prefix "") in *. set (rest := snd (split_pattern "")) in *.
-    set (c := cand start incl p d) in *.
-    rewrite S0 in S5. cbn [firstn] in S5. rewrite app_nil_r in S5.
+  - exists []. split; [reflexivity|]. split; [|constructor]. apply is_nil_true in En.
+    rewrite Hnames in En. apply firstn_nil_inv in En; [|auto]. rewrite En. reflexivity.
+  - apply is_nil_false in En.
+    assert (Hl : r_last r <> "").
+    { intro El. apply En. rewrite S1, (S6 El). reflexivity. }
     assert (Hwf' : wf (r_dir r)) by (rewrite S2; apply wf_del_expired; auto).
-    cbn [List.concat]. rewrite (IH s (r_dir r) (r_last r) false L prefix pages' Hwf' HL E2).
-    rewrite !Hspec. unfold impl_sel. fold p rest c. rewrite (S4 Hl).
-    rewrite S1, <- S5, <- map_app. f_equal.
-    transitivity (firstn L (filter (good p rest "") c) ++ skipn L (filter (good p rest "") c));
-      [f_equal|apply firstn_skipn].
-    symmetry. apply (firstn_app_skipn_eq _ (filter (good p rest "") (firstn m c))); [apply filter_firstn_skipn|exact S5].
-Qed.
-
-(* ================= the generic path does not terminate: not an artefact of the fuel ================= *)
-Lemma pf_loop_stuck : forall fuel d L p last count batch acc rq,
-  Nat.ltb count L = true -> batch <> [] ->
-  filter (fun e => String.prefix p (ename e)) batch = [] ->
-  mem_list d last false L = batch ->
-  pf_loop fuel d L p last count batch acc rq = None.
-Proof.
-  induction fuel as [|f IH]; intros d L p last count batch acc rq Hc Hb Hf Hm.
-  - cbn [pf_loop]. rewrite Hc. destruct batch; [congruence|reflexivity].
-  - assert (Hn : is_nil batch = false) by (destruct batch; [congruence|reflexivity]).
-    rewrite pf_loop_S. rewrite Hc, Hn, Hf. cbn [negb andb]. rewrite firstn_nil. cbn [length].
-    rewrite Nat.add_0_r, Hc. rewrite del_expired_nil, Hm. apply IH; auto.
+    assert (Hrest : spec_names (r_dir r) (r_last r) false prefix "" "" = skipn L (spec_names d start incl prefix "" "")).
+    { rewrite Hspec. unfold impl_sel. fold p rest. rewrite (S4 Hl). rewrite HM, skipn_map'. f_equal.
+      symmetry. apply (firstn_app_skipn_eq _ (filter (good p rest "") (firstn m c))); [apply filter_firstn_skipn|exact S5]. }
+    destruct (IH s (r_dir r) (r_last r) false L prefix Hwf' HL) as [pages [E2 [Hc Hall]]].
+    { rewrite Hrest, skipn_length.
+      assert (0 < length (spec_names d start incl prefix "" "")).
+      { destruct (spec_names d start incl prefix "" ""); [rewrite firstn_nil in Hnames; congruence|simpl; lia]. }
+      lia. }
+    rewrite E2. exists (r_names r :: pages). split; [reflexivity|]. split.
+    + cbn [List.concat]. rewrite Hc, Hrest, Hnames. apply firstn_skipn.
+    + constructor; auto. rewrite Hnames, firstn_length. lia.
 Qed.
 
 (* END *)
